@@ -457,7 +457,10 @@ def run_tabs(ctx, shard, tun):
                 opens = [opens_of(tu) for tu in per_track]
             if st == "ok" and isinstance(txt, str):
                 ml = tab.marker_lines(txt)
-                B = tab.beat_width(ml[0]) if ml else None
+                # (tracks on different tunings have string labels of different widths, hence quarter notes of different widths:
+                # the narrowest decides)
+                Bs = [tab.beat_width(l) for l in ml]
+                B = None if not Bs or any(x is None for x in Bs) else min(Bs)
                 if not in_domain(alllens, B, opens):         # (the entry lengths are the same for a twin track)
                     skipped += 1
                     ctx.case(("tab-skip", i), nontrivial=False)
